@@ -225,7 +225,9 @@ class Run:
 def _r(args):
     out = []
     for a in args:
-        if isinstance(a, (list, tuple)):
+        if hasattr(a, "tolist"):
+            out.append([[round(v, 6) for v in row] for row in a.tolist()])
+        elif isinstance(a, (list, tuple)):
             out.append([float(v) for v in a])
         else:
             out.append(a)
